@@ -145,11 +145,22 @@ func (self MetadataState) IsFailed() bool {
 	return strings.HasSuffix(string(self), string(Failed))
 }
 
-func makeUniquifier() string {
+// Makes a new uniquifier, which is different from prev, the uniquifier of
+// the previous attempt (if any).
+func makeUniquifier(prev string) string {
 	// Take the low 16 bits worth of the pid, and the low 24 bits
 	// (~6 months) of the unix time.
+	pid := uint16(os.Getpid())
 	trimmedTime := uint32(time.Now().Unix()) & ((^uint32(0)) >> 8)
-	return fmt.Sprintf("%04x%06x", uint16(os.Getpid()), trimmedTime)
+	// If this process also started the previous attempt, less than a second
+	// ago, the time does not tell them apart.  Count up from prev instead.
+	var prevPid uint16
+	var prevTime uint32
+	if n, _ := fmt.Sscanf(prev, "%4x%6x", &prevPid, &prevTime); n == 2 &&
+		prevPid == pid && prevTime >= trimmedTime {
+		trimmedTime = (prevTime + 1) & ((^uint32(0)) >> 8)
+	}
+	return fmt.Sprintf("%04x%06x", pid, trimmedTime)
 }
 
 //=============================================================================
@@ -359,7 +370,7 @@ func (self *Metadata) uniquify() error {
 	self.mutex.Lock()
 	defer self.mutex.Unlock()
 	if self.uniquifier == "" {
-		self.uniquifier = makeUniquifier()
+		self.uniquifier = makeUniquifier("")
 	}
 	p := self.finalPath + "-u" + self.uniquifier
 	if err := util.Mkdir(p); err != nil {
@@ -954,7 +965,7 @@ func (self *Metadata) uncheckedReset() error {
 	if self.uniquifier == "" {
 		return self.mkdirs()
 	} else {
-		self.uniquifier = ""
+		self.uniquifier = makeUniquifier(self.uniquifier)
 		return self.uniquify()
 	}
 }
